@@ -7,7 +7,8 @@ from .. import spec
 from ..codec import CodecModel
 from ..loader import AnalysisError
 from ..sym import (C, NONE, Interp, State, affine, contains, is_const,
-                   iter_events, kind, term_str, try_py, walk_term)
+                   iter_events, kind, subst_fold, term_str, truth, try_py,
+                   walk_term)
 from .codec_rules import aff, strip_sites
 
 META = {
@@ -180,19 +181,46 @@ def run(ctx):
             ctx.ob('C19.D3', q, 'counts-with-splitter:%s' % a, ok,
                    '%s must be the number of complete types, counted with '
                    'genCompleteTypes' % a)
-    # bracket pairs
+    # bracket pairs: decided per opening character by folding the branch
+    # conditions and the matcher's arguments with sig[i] := that character
     gct = prog.func('marshal.genCompleteTypes')
     fe = gct.nested.get('find_end')
+    sigp = ('param', gct.params()[0])
     pairs = set()
-    for n in prog._iter_scope(gct.node):
-        if isinstance(n, ast.Call) and isinstance(n.func, ast.Name) and \
-                n.func.id == 'find_end' and len(n.args) == 3:
-            pairs.add(tuple(a.value if isinstance(a, ast.Constant) else None
-                            for a in n.args[1:]))
+    unmatched = []
+    for p in Interp(prog, exc_edges=False).run(gct)[:1]:
+        for ev in p.trace:
+            if ev[0] != 'loop' or ev[2] != 'while':
+                continue
+            for ch in '(){}' + ''.join(sorted(BASIC)) + 'av':
+                for bp in ev[4]:
+                    cur = [t for t in walk_term(bp.cond[0][0])
+                           if kind(t) == 'loopvar'] if bp.cond else []
+                    if not cur:
+                        continue
+                    env = {('sub', sigp, cur[0]): C(ch)}
+                    feas = True
+                    for c, pol in bp.cond[1:]:
+                        tv = truth(subst_fold(c, env))
+                        if tv is not None and tv != pol:
+                            feas = False
+                    if not feas:
+                        continue
+                    fcalls = [c for c in bp.calls()
+                              if (c[1] or '').endswith('.find_end') and
+                              len(c[3]) == 3]
+                    for c in fcalls:
+                        b_, e_ = (subst_fold(a, env) for a in c[3][1:])
+                        pairs.add((b_[1] if is_const(b_) else None,
+                                   e_[1] if is_const(e_) else None))
+                    if ch in '({' and not fcalls:
+                        unmatched.append(ch)
     ctx.ob('C19.D3', gct.qualname, 'bracket-pairs',
-           pairs == {('(', ')'), ('{', '}')},
-           'the matcher must be used for ( ) and { }; used for %s'
-           % sorted(pairs))
+           pairs == {('(', ')'), ('{', '}')} and not unmatched,
+           'the matcher must be used for ( ) and { } and for nothing else; '
+           'used for %s%s' % (sorted(pairs, key=str), '; a path yields %s '
+                              'without looking for its closing bracket'
+                              % unmatched if unmatched else ''))
     tiling(ctx, gct)
     matcher(ctx, fe)
     # variants encode under the inferred signature and decode back: the
@@ -340,7 +368,7 @@ def tiling(ctx, gct):
                        'index and the index must advance by exactly its '
                        'length, so that the pieces concatenate to the input; '
                        'index advances by %s' % (what, _affs(adv)))
-    if n < 4:
+    if n < 3:
         raise AnalysisError('genCompleteTypes: only %d yielding branch(es)'
                             % n)
 
